@@ -82,6 +82,36 @@ Definition run_C04 (case : tree) : tree :=
           end
       | _, _, _ => badcase "inst_substitute: input"
       end
+  | L [A "subst_penalty_eval"; L [i; rs; s; u; w]; L [res; ev]] =>
+      match d_instance i, d_list d_repl rs, d_state s, d_Z u, d_num w with
+      | Some I', Some Rs, Some s', Some u', Some w' =>
+          match substitute_all I' Rs with
+          | None => if is_err res || is_panic res then agree ["subst-penalty"; "err"]
+                    else disagree "Instance::substitute must fail" (A "err")
+          | Some J =>
+              match judge_instance (Some J) res "inst_substitute" with
+              | L (A "agree" :: _) =>
+                  (* continue from the message the SDK holds (equal to J as formal polynomials) *)
+                  let G := match ok_payload res with
+                           | Some p => match d_instance p with Some G0 => G0 | None => J end
+                           | None => J end in
+                  match (if (u' =? 1)%Z then uniform_penalty tiny_eps G else penalty tiny_eps G) with
+                  | None => badcase "MODEL: penalty conversion undefined"
+                  | Some P =>
+                      match with_parameters tiny_eps P (map (fun p => (pa_id p, w')) (p_params P)) with
+                      | None => badcase "MODEL: with_parameters undefined"
+                      | Some I2 =>
+                          match judge_inst_eval I2 s' ev with
+                          | L (A "agree" :: _) => agree ["subst-penalty"; if (u' =? 1)%Z then "uniform" else "each"]
+                          | v => v
+                          end
+                      end
+                  end
+              | v => v
+              end
+          end
+      | _, _, _, _, _ => badcase "subst_penalty_eval: input"
+      end
   | L [A "deps_orders"; L [i; s; _]; res] =>
       match d_instance i, d_state s with
       | Some I', Some s' =>
@@ -105,6 +135,8 @@ Definition run_C04 (case : tree) : tree :=
       end
   | L [A "inst_substitute"; _; res] =>
       if is_hang res then disagree "substitute / evaluate must return" (A "err") else badresult "inst_substitute: shape"
+  | L [A "subst_penalty_eval"; _; res] =>
+      if is_hang res then disagree "substitute / penalty / evaluate must return" (A "err") else badresult "subst_penalty_eval: shape"
   | L [A "deps_orders"; _; res] =>
       if is_hang res then disagree "evaluation with dependencies must return (no hang)" (A "err") else badresult "deps_orders: shape"
   | _ => badcase "C04: unknown op"
